@@ -33,12 +33,27 @@ Lemma live_header s ts t k m : meta_get s t k = Some m -> is_expired Compact (m_
   coll_header Compact s ts t k = (m_hdr m, Some (m_a m, m_b m), false) /\
   coll_prepare Compact s ts t k = (m_hdr m, Some (m_a m, m_b m), false).
 Proof. intros H E. unfold coll_prepare, coll_header. rewrite H, E. simpl. auto. Qed.
-Lemma meta_put_seq k ver vs : forall seq delta s s', put_seq s k ver seq delta vs = Some s' ->
-  forall t' k', meta_get s' t' k' = meta_get s t' k'.
+Lemma same_meta s t k m m' : meta_get s t k = Some m -> meta_get s t k = Some m' -> m_hdr m' = m_hdr m.
+Proof. intros A B. rewrite A in B. now inversion B. Qed.
+Lemma meta_put_seq k ver vs : forall seq delta s t' k',
+  meta_get (fst (put_seq s k ver seq delta vs)) t' k' = meta_get s t' k'.
 Proof.
-  induction vs as [|v vs IH]; intros seq delta s s' H t' k'; simpl in H.
-  - now inversion H.
-  - destruct (el_get s TL k ver (SI seq)); [discriminate|]. now rewrite (IH _ _ _ _ H).
+  induction vs as [|v vs IH]; intros seq delta s t' k'; simpl; auto.
+  destruct (el_get s TL k ver (SI seq)); auto. now rewrite IH.
+Qed.
+Lemma apply_fix_hdr s0 s ts k m m' : meta_get s TL k = Some m -> is_expired Compact (m_hdr m) ts = false ->
+  meta_get s0 TL k = Some m ->
+  meta_get (apply_fix s0 k (scanfix Compact s ts k)) TL k = Some m' -> m_hdr m' = m_hdr m.
+Proof.
+  intros K E K0. unfold scanfix, coll_header. rewrite K, E. cbn [not_exist_or_expired orb].
+  destruct (list_meta_of (Some (m_a m, m_b m))) as [[hd tl] llen]. cbv zeta.
+  destruct (negb (contig (list_seqs s k (h_ver (m_hdr m))))); [cbn [apply_fix]; now apply same_meta|].
+  destruct (list_seqs s k (h_ver (m_hdr m))) as [|f r].
+  - destruct ((hd =? 0) && (tl =? 0)); [cbn [apply_fix]; now apply same_meta|].
+    destruct (llen =? 0); [cbn [apply_fix]; now apply same_meta|].
+    cbn [apply_fix]. rewrite meta_get_del, (proj2 (mkey_eqb_eq (TL, k) (TL, k)) eq_refl). discriminate.
+  - match goal with |- context [if ?c then _ else _] => destruct c end; [cbn [apply_fix]; now apply same_meta|].
+    cbn [apply_fix]. rewrite meta_get_put, (proj2 (mkey_eqb_eq (TL, k) (TL, k)) eq_refl). intros X; inversion X; reflexivity.
 Qed.
 Lemma meta_list_set_meta s k h hd tl s' m : list_set_meta s k h hd tl = Some s' -> meta_get s' TL k = Some m -> m_hdr m = h.
 Proof.
@@ -65,8 +80,6 @@ Qed.
 Lemma hdr_match (o : option meta) h' h :
   (forall m', o = Some m' -> m_hdr m' = h) -> match o with Some m => Some (m_hdr m) | None => None end = Some h' -> h' = h.
 Proof. intros H. destruct o as [m|]; [|discriminate]. intros X; inversion X; subst. now apply H. Qed.
-Lemma same_meta s t k m m' : meta_get s t k = Some m -> meta_get s t k = Some m' -> m_hdr m' = m_hdr m.
-Proof. intros A B. rewrite A in B. now inversion B. Qed.
 
 Lemma do_hmset_hdr s ts k fvl m m' : meta_get s TH k = Some m -> is_expired Compact (m_hdr m) ts = false ->
   meta_get (fst (do_hmset Compact s ts k fvl)) TH k = Some m' -> m_hdr m' = m_hdr m.
@@ -124,11 +137,12 @@ Proof.
   destruct (list_meta_of (Some (m_a m, m_b m))) as [[hd0 tl0] size].
   destruct vs as [|v vs]; [cbn [fst]; now apply same_meta|].
   match goal with |- context [if ?c then _ else _] => destruct c end; [cbn [fst]; now apply same_meta|].
-  match goal with |- context [put_seq ?a ?b ?c ?d ?e ?f] => destruct (put_seq a b c d e f) as [s1|] eqn:PS end;
-    [|cbn [fst]; now apply same_meta].
-  match goal with |- context [list_set_meta ?a ?b ?c ?d ?e] => destruct (list_set_meta a b c d e) as [s2|] eqn:LS end;
-    [|cbn [fst]; now apply same_meta].
-  cbn [fst]. intros K'. eapply meta_list_set_meta; eauto.
+  match goal with |- context [put_seq ?a ?b ?c ?d ?e ?f] => pose proof (meta_put_seq b c f d e a TL k) as MP; destruct (put_seq a b c d e f) as [s1 ok] end.
+  cbn [fst] in MP. destruct ok.
+  - match goal with |- context [list_set_meta ?a ?b ?c ?d ?e] => destruct (list_set_meta a b c d e) as [s2|] eqn:LS end;
+      [|cbn [fst]; now apply same_meta].
+    cbn [fst]. intros K'. eapply meta_list_set_meta; eauto.
+  - cbn [fst]. apply (apply_fix_hdr s1 s ts k m m'); auto. now rewrite MP.
 Qed.
 Lemma do_lpop_hdr s ts k hd m m' : meta_get s TL k = Some m -> is_expired Compact (m_hdr m) ts = false ->
   meta_get (fst (do_lpop Compact s ts k hd)) TL k = Some m' -> m_hdr m' = m_hdr m.
@@ -136,10 +150,11 @@ Proof.
   intros K E. unfold do_lpop. destruct (live_header s ts TL k m K E) as [L _]. rewrite L. cbn [not_exist_or_expired orb].
   destruct (list_meta_of (Some (m_a m, m_b m))) as [[hd0 tl0] size].
   destruct (size =? 0); [cbn [fst]; now apply same_meta|].
-  destruct (el_get s TL k (h_ver (m_hdr m)) (SI (if hd then hd0 else tl0))); [|cbn [fst]; now apply same_meta].
-  match goal with |- context [list_set_meta ?a ?b ?c ?d ?e] => destruct (list_set_meta a b c d e) as [s2|] eqn:LS end;
-    [|cbn [fst]; now apply same_meta].
-  cbn [fst]. intros K'. eapply meta_list_set_meta; eauto.
+  destruct (el_get s TL k (h_ver (m_hdr m)) (SI (if hd then hd0 else tl0))).
+  - match goal with |- context [list_set_meta ?a ?b ?c ?d ?e] => destruct (list_set_meta a b c d e) as [s2|] eqn:LS end;
+      [|cbn [fst]; now apply same_meta].
+    cbn [fst]. intros K'. eapply meta_list_set_meta; eauto.
+  - cbn [fst]. now apply (apply_fix_hdr s s ts k m m').
 Qed.
 
 (* (a) a modifying command on a live key keeps its header: the expiry and the generation *)
